@@ -342,10 +342,16 @@ def r4(F, R):
                 R.bad("C11-R4", "controller:finalize", site, "a path from the end of the command loop to the closure's return skips finalize_many (%s): traces are lost and paused "
                       "workers are never woken" % (rng_,))
         for bb, t in fm:
-            names = ["trace", "chains"]
-            v = cs.value(t["args"][1]) if len(t["args"]) > 1 else None
-            ty = cs.local_ty(K.root_local(cs, t["args"][1])) if len(t["args"]) > 1 else ""
-            if t["args"][1]["k"] == "move" and ty.startswith("std::vec::Vec<sampler::ChainProcess"):
+            # whichever position the vector of chain handles has in the argument list
+            ty = ""
+            moved = False
+            for a_ in t["args"]:
+                if a_["k"] in ("copy", "move"):
+                    ty_ = cs.local_ty(K.root_local(cs, a_)) or ""
+                    if ty_.startswith("std::vec::Vec<sampler::ChainProcess"):
+                        ty = ty_
+                        moved = a_["k"] == "move"
+            if moved:
                 R.ok("C11-R4", "controller:finalize-consumes#%d" % bb, "%s @%s" % (cs.path, loc(t["span"])), "finalize_many takes the chain handles by value (all mailbox senders dropped)")
             else:
                 R.bad("C11-R4", "controller:finalize-consumes#%d" % bb, "%s @%s" % (cs.path, loc(t["span"])), "finalize_many does not consume the chain handles (%s)" % ty)
